@@ -66,6 +66,9 @@ def generate(seed, tier):
     if swarm.chance(.35):
         from ..world import add_satellite_name_chain
         add_satellite_name_chain(Rng(seed, 'satname'), world)
+    if swarm.chance(.3):
+        from ..world import add_satellite_block
+        add_satellite_block(Rng(seed, 'satblock'), world)
     srng = Rng(seed, 'sched')
     scheds = []
     n_items = len(world['cells']) + len(world['names'])
